@@ -1,3 +1,3 @@
 Require Import Extraction ExtrOcamlBasic.
-Require Import P.ParseModel P.ParsePrintModel P.ParseDecl.
-Extraction "parse_model.ml" next_type pr parse_data.
+Require Import P.ParseModel P.ParsePrintModel P.ParseDecl P.ParseInterp.
+Extraction "parse_model.ml" next_type pr parse_data attrs_skip attrs_recurse attrs_all_setters attrs_map_strategy attrs_collection_type attrs_setter attrs_expose.
